@@ -864,11 +864,22 @@ pub mod consumers {
             PublicKeyShare::<C>::try_from(pb.as_slice()).map_err(|e| e.to_string())?
         };
         let r2 = s.verify(&pks, b"m").map_err(|e| e.to_string());
-        let invalid_payload = matches!(&r2, Err(e) if e.contains("sharing"));
-        match (r1, invalid_payload) {
-            (Err(e), _) => Err(e),
-            (Ok(()), true) => Err("verify reported an invalid share payload".into()),
-            (Ok(()), false) => Ok("ok".into()),
+        // the trait-level entry points (BlsSignatureBasic / BlsSignaturePop ::partial_verify) decode the share too
+        let r3 = <C as BlsSignatureBasic>::partial_verify(pks.0, *s.as_raw_value(), b"m").map_err(|e| e.to_string());
+        let r4 = <C as BlsSignaturePop>::partial_verify(pks.0, *s.as_raw_value(), b"m").map_err(|e| e.to_string());
+        let bad = |r: &Result<(), String>| matches!(r, Err(e) if e.contains("sharing"));
+        // every path must agree on whether the payload is a valid subgroup point
+        let rejects = [r1.is_err(), bad(&r2), bad(&r3), bad(&r4)];
+        if rejects.iter().all(|x| *x) {
+            Err("every consumer refuses the share".into())
+        } else if rejects.iter().all(|x| !*x) {
+            Ok("ok".into())
+        } else if rejects[0] && id == 0 && !rejects[1..].iter().any(|x| *x) {
+            Err("the combiner refuses the zero identifier".into())
+        } else if rejects[0] {
+            Ok(format!("MIXED: a verification path accepts a payload the combiner refuses {:?}", rejects))
+        } else {
+            Err(format!("MIXED: a verification path refuses a payload the combiner accepts {:?}", rejects))
         }
     }
     pub fn dec_share<C: Impl>(s: &SignDecryptionShare<C>, lib: &Lib) -> Result<String, String> {
